@@ -66,8 +66,16 @@ def run(ctx, replay):
     races(ctx, "web", logdir)
     # 3. parallel fetch under -race
     c16 = ctx.build("c16", race=True)
-    ctx.harness(c16, cases=empty, n=6, env=env, name="c16-fetch-race", timeout=3000)
+    # every (failure subset, completion order) of three sources and a base from Fetch.tla, replayed with a gating
+    # Fetcher under the race detector; the recorded runs are validated by TraceFetch.tla: the merged result is the
+    # one the sources give when fetched one at a time, in command-line order
+    fcases = os.path.join(ctx.scratch, "fetch-cases.ndjson")
+    ctx.tlc("Fetch", "MCFetch.cfg", consts={"NSrc": 3, "NBase": 1, "ChunkSize": 128, "Emit": True}, emit_to=fcases, timeout=900, name="GenFetch")
+    ftrace = os.path.join(ctx.scratch, "fetch-trace.ndjson")
+    ctx.harness(c16, cases=fcases, trace=ftrace, n=6, env=env, name="c16-fetch-race", timeout=3000)
     races(ctx, "fetch", logdir)
+    res = ctx.tlc("TraceFetch", "TraceFetch.cfg", workers=1, files={"trace.ndjson": ftrace}, timeout=1800, name="TraceFetch")
+    vcheck.trace_verdict(ctx, res, ftrace, ftrace + ".in", check="trace-fetch", describe=lambda ev: "fetch:%s:n=%d" % (ev.get("schedule"), len(ev["srcok"])))
     # 4. temporary/saved files from concurrent pprof PROCESSES sharing one PPROF_TMPDIR: distinct names, never overwritten
     pprof = ctx.build_pprof()
     src = os.path.join(vcheck.REPO, "internal", "driver", "testdata", "cppbench.cpu")
